@@ -10,7 +10,7 @@ from pvm.ref import frames as F
 
 KINDS = ["tcp", "udp", "icmp", "ipother", "tcp_opts", "frag_first",
          "frag_later", "arp_req", "arp_rep", "other", "llc", "snap0",
-         "snapx", "snap_ip", "lldp", "ipv6"]
+         "snapx", "snap_ip", "lldp", "ipv6", "qinq"]
 
 MACS = [bytes.fromhex(x) for x in
         ("000000000001", "000000000002", "0200000000aa", "ffffffffffff",
@@ -84,6 +84,15 @@ def gen_frame (rng, kind=None, tagged=None, pad=None, payload_len=None,
     raw = F.eth(dst, src, 0x86dd, b"\x60\0\0\0" + struct.pack("!HBB",
                 len(data), 59, 64) + b"\x20\x01" + b"\0" * 13 + b"\x01" +
                 b"\x20\x01" + b"\0" * 13 + b"\x02" + data, vlan, pad)
+  elif k == "qinq":
+    # two stacked 802.1Q tags: OpenFlow 1.0 looks at the outer one only, so
+    # the frame's type is 0x8100 and nothing behind the inner tag is a field
+    l4 = F.udp(5000, 5001, data, src=sip, dst=dip)
+    inner = struct.pack("!H", (rng.randrange(8) << 13) | rng.choice([1, 200, 4094])) + \
+        struct.pack("!H", rng.choice([0x0800, 0x0800, 0x0806, 0x88b5])) + ip(17, l4)
+    outer = vlan or (rng.randrange(8), 0, rng.choice([1, 100, 4095]))
+    desc["tagged"] = True
+    raw = F.eth(dst, src, 0x8100, inner, outer, False)
   elif k == "llc":
     raw = F.eth_8023(dst, src, F.llc(0x42, 0x42, 3, data + b"\0\0\0"), vlan)
   elif k == "snap0":
